@@ -14,7 +14,7 @@ TUS = {
               "test/unit/queue/msqueue_hp.cpp", "test/unit/stack/treiber_stack_hp.cpp", "test/unit/striped-set/intrusive_cuckoo_set.cpp",
               "test/unit/striped-set/set_std_set.cpp", "test/unit/queue/basket_queue_hp.cpp", "test/unit/queue/optimistic_queue_hp.cpp", "test/unit/intrusive-set/intrusive_split_michael_hp.cpp",
               "test/unit/set/split_lazy_hp.cpp", "test/unit/set/split_iterable_hp.cpp", "test/unit/tree/bronson_avltree_map_rcu_gpb.cpp"],
-    "thorough": ["test/unit/intrusive-list/*.cpp", "test/unit/intrusive-set/*.cpp", "test/unit/tree/intrusive_*.cpp", "test/unit/queue/*.cpp",
+    "thorough": ["test/unit/intrusive-list/*.cpp", "test/unit/intrusive-set/*.cpp", "test/unit/tree/intrusive_*.cpp", "test/unit/tree/bronson_*.cpp", "test/unit/queue/*.cpp",
                  "test/unit/stack/*.cpp", "test/unit/striped-set/*.cpp", "test/unit/pqueue/*.cpp"],
 }
 EXPLANATION = (
